@@ -217,4 +217,28 @@ def printInit (proto : String) : Value → Option (List Char)
   | .double b => floatSpecial proto (pyIsNaN64 b) (b == 0x7ff0000000000000) (b == 0xfff0000000000000)
   | _ => none
 
+/-! ### the String branch of the field initialiser printing (DvClass.get_source)
+`'"%s"' % str(value).encode("unicode-escape").decode("ascii")`, `'""'` for the empty string.
+A Python `str` is a list of code points (surrogate code points included). -/
+
+def hexNibble (n : Nat) : Nat := if n < 10 then 0x30 + n else 0x57 + n
+
+/-- CPython's `unicode-escape` codec for one code point -/
+def pyEscapeChar (c : Nat) : List Nat :=
+  if c = 0x09 then [0x5c, 0x74]                 -- \t
+  else if c = 0x0a then [0x5c, 0x6e]            -- \n
+  else if c = 0x0d then [0x5c, 0x72]            -- \r
+  else if c = 0x5c then [0x5c, 0x5c]            -- backslash doubled
+  else if 0x20 ≤ c ∧ c < 0x7f then [c]          -- printable ASCII as it is (also `"` and `'`)
+  else if c < 0x100 then [0x5c, 0x78, hexNibble (c / 16), hexNibble (c % 16)]          -- \xNN
+  else if c < 0x10000 then
+    [0x5c, 0x75, hexNibble (c / 4096), hexNibble (c / 256 % 16), hexNibble (c / 16 % 16), hexNibble (c % 16)]
+  else
+    [0x5c, 0x55, hexNibble (c / 268435456 % 16), hexNibble (c / 16777216 % 16), hexNibble (c / 1048576 % 16),
+     hexNibble (c / 65536 % 16), hexNibble (c / 4096 % 16), hexNibble (c / 256 % 16), hexNibble (c / 16 % 16),
+     hexNibble (c % 16)]                                                              -- \UNNNNNNNN
+
+/-- the text printed after `String name = ` for a (non-null) string value -/
+def printStringInit (s : List Nat) : List Nat := [0x22] ++ s.flatMap pyEscapeChar ++ [0x22]
+
 end AgVerif.EncodedValue
